@@ -152,6 +152,15 @@ def probeExt : String → List Val → Option (List Val)
   | "probe.note", [.int x] => some [.int (x + 1)]
   | "probe.done", [] => some []
   | "ProbeFn", [.int k, .int x] => some [.int (k * x + 1)]
+  -- round 4 (harness/cmd/zvh/trans_probe4.go)
+  | "bytes.ToLower", [.bytes t] => some [.bytes (ZapVerif.OpenBuild.lowerBytes t)]
+  | "probe.fill", [.int k, _] =>
+      some [.list [if k % 2 = 0 then .list [.int (k * 3)] else .list []], .bool (decide (Int.tmod k 3 = 0))]
+  | "probe.asInt", [.list [.int 0, .int n]] => some [.int n, .bool true]
+  | "probe.asInt", [_] => some [.int 0, .bool false]
+  | "probe.asString", [.list [.int 1, .bytes s]] => some [.bytes s, .bool true]
+  | "probe.asString", [_] => some [.bytes [], .bool false]
+  | "probe.write", [.bytes b, .bytes s] => some [.bytes (b ++ s)]
   | _, _ => none
 
 /-- the argument encoding of harness/cmd/zvh/trans_sweeten.go: `[0, key]` Field, `[1, id]` error, `[2, s]` string, anything
